@@ -26,7 +26,7 @@ from .common import cN, cZ, cbool, cbytes, clist, cnat, copt, cstr
 
 THEOREMS = [
     "cache_refines_map", "lookup_after_history", "get_never_raises", "damaged_entry_removed",
-    "put_then_get", "file_names_injective", "version_stamp_is_no_entry", "ids_do_not_alias",
+    "expired_entry_removed", "foreign_version_cleared", "cache_ops_never_raise", "put_then_get", "file_names_injective", "version_stamp_is_no_entry", "ids_do_not_alias",
     "warm_fetches_nothing", "other_policy_no_cache",
     "options_reattached", "options_reattached_partial", "reattach_schema_import_refuted",
     "wrapped_follows_options", "wrapped_follows_options_partial", "wrapped_stale_refuted",
@@ -225,12 +225,16 @@ def make_objects():
     ]
     pickles = [Plain(1), {"a": (1, 2, "x" * 40), "b": [None, 2.5]}, docs[1]]
     raws = [b"pero1", b"", b"fifi22\x00\xff" * 9]
-    return {"KXml": docs, "KPx": pickles, "KGcf": raws}
+    objects = {"KXml": dict(enumerate(docs)), "KPx": dict(enumerate(pickles)), "KGcf": dict(enumerate(raws))}
+    # DocumentCache.put ignores what is neither a Document nor an Element
+    objects["KXml"][100] = "<not-a-document/>"
+    objects["KXml"][101] = Plain(5)
+    return objects
 
 
 def obj_index(kind, objects, got):
     """Which stored object the returned one equals (by value); 99 = none of them."""
-    for i, o in enumerate(objects[kind]):
+    for i, o in sorted(objects[kind].items()):
         try:
             if kind == "KXml":
                 same = type(got) is type(o) and str(got) == str(o)
@@ -289,7 +293,7 @@ def c_op(op, objects):
         return "(OOpen %s %s %s)" % (cnat(op[1]), op[2], cZ(op[3]))
     if t == "put":
         kind = op[5]
-        reallen = len(serialise(kind, objects[kind][op[4]])) if kind else 0
+        reallen = len(serialise(kind, objects[kind][op[4]])) if kind and op[4] < 100 else 0
         return "(OPut %s %s %s %s)" % (c_fault(op[1], reallen), cnat(op[2]), cstr(op[3]), cN(op[4]))
     if t == "get":
         return "(OGet %s %s %s)" % (c_fault(op[1]), cnat(op[2]), cstr(op[3]))
@@ -395,8 +399,8 @@ def c_hcase(ops, obs, objects, version):
     return "(mkhcase %s %s c11_names %s)" % (
         cstr(version),
         clist([c_op(o, objects) for o in ops], "op"),
-        clist(["(%s, %s)" % (c_result(r), clist([cbool(b) for b in pres], "bool")) for r, pres in obs],
-              "result * list bool"))
+        clist(["(%s, %s)" % (c_result(r), cN(sum(1 << i for i, b in enumerate(pres) if b))) for r, pres in obs],
+              "result * N"))
 
 
 HPRE = PRE + "\nDefinition c11_names : list str := %s." % clist([cstr(n) for n in OBSERVED_NAMES], "str")
@@ -454,6 +458,8 @@ def random_fault_put(rng, kind, objects, o):
         return ("close",)
     if kind == "KGcf":
         return None     # the raw FileCache has no format: a torn entry is outside the theorem
+    if o >= 100:
+        return None
     n = len(serialise(kind, objects[kind][o]))
     if n == 0:
         return None
@@ -489,6 +495,8 @@ def random_history(rng, objects, maxlen, version):
         id = rng.choice(IDS + ("a", "a", "b"))
         if r < 0.33:
             o = rng.randrange(3)
+            if kind == "KXml" and rng.random() < 0.08:
+                o = rng.choice((100, 101))
             ops.append(("put", random_fault_put(rng, kind, objects, o), i, id, o))
             stored.append((kind, id))
         elif r < 0.73:
@@ -541,6 +549,15 @@ def gen_histories(ck, objects, version):
     pre, alpha = alphabet_mixed()
     for seq in itertools.product(alpha, repeat=3 if thorough else 2):
         hs.append(("exhaustive-mixed", list(pre) + list(seq)))
+    # version-file states x cache class x entry left by the other writer
+    for v in (None, "", version[:-1], version + "0", "0.9.9", version.replace(".", ","), "\n" + version):
+        for kind in KINDS:
+            for content in (("ser", kind, 1), ("raw", b""), ("raw", b"\x80\x02}q\x00.")):
+                hs.append(("version-states", [("foreign", v, [(entry_name(kind, "a"), content),
+                                                               ("notes.txt", ("raw", b"n"))]),
+                                               ("open", 0, kind, 0), ("get", None, 0, "a"),
+                                               ("put", None, 0, "a", 0), ("get", None, 0, "a"),
+                                               ("open", 1, kind, 5), ("get", None, 1, "a")]))
     for _ in range(8000 if thorough else 1200):
         hs.append(("random", random_history(rng, objects, 12, version)))
     return hs
@@ -829,6 +846,8 @@ def build_client(member, location, kind, dur, pol, optname, world_fault=None):
     kwargs.update(documentStore=make_store(docs, log), transport=invoking_transport(log, style, tns_types, sent))
     if kind is None:
         kwargs["cache"] = None
+    elif kind == "default":
+        kwargs["cachingpolicy"] = pol        # no cache argument: Client.__init__ picks ObjectCache(days=1)
     else:
         kwargs["cache"] = rec_cache_class(kind, cachelog)(location, seconds=dur)
         kwargs["cachingpolicy"] = pol
@@ -852,11 +871,22 @@ def build_client(member, location, kind, dur, pol, optname, world_fault=None):
     except Exception:
         r["options_current"] = False
     r["wrapped"] = body_wrapped(client)
+    if kind == "default":
+        location = default_location()
+        import suds.cache
+        c = client.options.cache
+        r["default_cache"] = (type(c) is suds.cache.ObjectCache and c.duration == datetime.timedelta(days=1)
+                              and client.options.cachingpolicy == pol)
     before = (len(cachelog), listing(location))
     r["fp"] = behaviour(client, member, sent)
     r["reply_cached"] = (len(cachelog), listing(location)) != before
     r["transport"] = log.transport > 0
     return r
+
+
+def default_location():
+    import suds.cache
+    return getattr(suds.cache.FileCache, "_FileCache__default_location", None) or "/nonexistent"
 
 
 def url_table(member):
@@ -921,7 +951,7 @@ def run_scenario(member, sc, location, refs):
                     pass
             elif op[0] == "advance":
                 world.clock += op[1]
-            out.append((obs, listing(location)))
+            out.append((obs, listing(location if location is not None else default_location())))
     finally:
         world.uninstall()
     return out
@@ -934,7 +964,8 @@ def c_world(ids, urls, imps, opened, docstyle):
 
 def c_cop(op):
     if op[0] == "client":
-        return "(CClient %s %s %s %s)" % (op[1], cZ(op[2]), cN(op[3]), cbool(opt_unwrap(op[4])))
+        return "(CClient %s %s %s %s)" % ("KPx" if op[1] == "default" else op[1], cZ(op[2]), cN(op[3]),
+                                          cbool(opt_unwrap(op[4])))
     if op[0] == "plant":
         return "(CPlant %s [9; 9]%%N)" % cstr(op[1])
     if op[0] == "remove":
@@ -963,8 +994,8 @@ def c_ccase(version, member_info, quirks, sc, observed):
         cbool(quirks[0]), cbool(quirks[1]),
         clist([c_cop(o) for o in sc], "cop"),
         clist([cstr(n) for n in names], "str"),
-        clist(["(%s, %s)" % (c_cobs(o, ids), clist([cbool(n in lst) for n in names], "bool"))
-               for o, lst in observed], "option cobs * list bool"))
+        clist(["(%s, %s)" % (c_cobs(o, ids), cN(sum(1 << i for i, n in enumerate(names) if n in lst)))
+               for o, lst in observed], "option cobs * N"))
 
 
 # ---------------------------------------------------------------------------
@@ -1179,6 +1210,8 @@ def bad_observations(member, imps, sc, observed, refs):
             warm = set()
             continue
         kind, pol, optname = op[1], op[3], op[4]
+        if kind == "default":
+            kind = "KPx"
         reasons = []
         if obs["exc"] is not None:
             reasons.append("raise")
@@ -1264,7 +1297,16 @@ def check_clients(ck, version):
                                          "wrapped_flag_not_recomputed": quirks[1]}
     terms, keep = [], []
     k = 0
-    for (shape, nops, style) in scenario_members(ck):
+    plan = [(m, None) for m in scenario_members(ck)]
+    # Client(url) with no cache argument: the default one-day ObjectCache in the process-wide
+    # default location (created under our temp root), policy 0 then 1
+    plan.insert(0, ((2, 2, "doc"), [("default", [("client", "default", 86400, 0, "base"),
+                                                  ("client", "default", 86400, 0, "nounwrap"),
+                                                  ("advance", 86400), ("client", "default", 86400, 0, "loc"),
+                                                  ("advance", 1), ("client", "default", 86400, 0, "base"),
+                                                  ("client", "default", 86400, 1, "pretty"),
+                                                  ("client", "default", 86400, 1, "pretty")])]))
+    for (shape, nops, style), fixed in plan:
         docs, ops, tns_types = family_member(shape, nops, style, extra=ck.rng.randrange(3))
         member = (docs, ops, style, tns_types)
         ref, urls, ids, md5, imps, opened = url_table(member)
@@ -1273,10 +1315,26 @@ def check_clients(ck, version):
         names = scenario_names(urls, md5)
         info = (ref, urls, ids, md5, imps, opened, docstyle, names)
         refs = {}
-        for group, sc in gen_scenarios(ck, names):
+        for group, sc in (fixed if fixed is not None else gen_scenarios(ck, names)):
             loc = os.path.join(ROOT, "c%d" % k, "cache")
             k += 1
-            observed = run_scenario(member, sc, loc, refs)
+            if group == "default":
+                import tempfile
+                saved_tmp = tempfile.tempdir
+                tempfile.tempdir = ROOT
+                try:
+                    observed = run_scenario(member, sc, None, refs)
+                finally:
+                    tempfile.tempdir = saved_tmp
+                ck.extra["default_cache_is_one_day_object_cache"] = all(
+                    o.get("default_cache", False) for o, _ in observed if o is not None and o["exc"] is None)
+                if not ck.extra["default_cache_is_one_day_object_cache"]:
+                    ck.failing_input("C11:default-cache-not-one-day-object-cache",
+                                     "Client(url) without a cache argument does not use ObjectCache(days=1)",
+                                     {"kind": "scenario", "member": [shape, nops, style], "scenario": sc,
+                                      "observed": strip_obs(observed)})
+            else:
+                observed = run_scenario(member, sc, loc, refs)
             shutil.rmtree(os.path.dirname(loc), ignore_errors=True)
             terms.append(c_ccase(version, info, quirks, sc, observed))
             bad = bad_observations(member, imps, sc, observed, refs)
@@ -1362,6 +1420,24 @@ def check_hammer(ck):
 # the check
 # ---------------------------------------------------------------------------
 
+def jsonable(x):
+    if isinstance(x, bytes):
+        return ["__bytes__", x.decode("latin-1")]
+    if isinstance(x, (list, tuple)):
+        return [jsonable(y) for y in x]
+    if isinstance(x, dict):
+        return dict((k, jsonable(v)) for k, v in x.items())
+    return x
+
+
+def unjson(x):
+    if isinstance(x, list):
+        if len(x) == 2 and x[0] == "__bytes__":
+            return x[1].encode("latin-1")
+        return tuple(unjson(y) for y in x)
+    return x
+
+
 def describe_history(ops):
     return "; ".join(" ".join(str(x) for x in o[:5]) for o in ops)
 
@@ -1412,6 +1488,7 @@ def _run(ck, version):
         "process removes a listed file first: neither is a lookup, not flagged",
     ]
     proof_ok = ck.prove(THEOREMS) if THEOREMS else True
+    ck.extra["phase_seconds"] = {"proof": round(__import__("time").time() - ck.t0, 1)}
     objects = make_objects()
 
     # 1. histories
@@ -1420,15 +1497,16 @@ def _run(ck, version):
         group, ops, obs = keep[i]
         key, what = classify_history(ops, obs)
         ck.failing_input(key, "%s: %s" % (what, describe_history(ops)),
-                         {"kind": "history", "ops": ops, "observed": obs})
+                         {"kind": "history", "ops": jsonable(ops), "observed": jsonable(obs)})
     unproved = []
     only_model = sorted(bad_model - bad_spec, key=lambda i: len(keep[i][1]))
     if only_model:
         group, ops, obs = keep[only_model[0]]
         unproved.append(("cache histories: " + describe_history(ops),
-                         {"kind": "history", "ops": ops, "observed": obs, "model_disagreements": len(only_model)}))
+                         {"kind": "history", "ops": jsonable(ops), "observed": jsonable(obs),
+                          "model_disagreements": len(only_model)}))
 
-    ck.extra["phase_seconds"] = {"proof+histories": round(__import__("time").time() - ck.t0, 1)}
+    ck.extra["phase_seconds"]["histories"] = round(__import__("time").time() - ck.t0, 1)
     # 2. torn-write sweep
     meta, sw_model, sw_spec, overlay_bad = check_sweep(ck)
     for m in overlay_bad[:1]:
@@ -1526,11 +1604,7 @@ def replay(ck, payload):
     try:
         kind = payload.get("kind")
         if kind == "history":
-            ops = [tuple(tuple(x) if isinstance(x, list) and o[0] != "foreign" else x for x in o)
-                   for o in payload["ops"]]
-            ops = [o if o[0] != "foreign" else (o[0], o[1], [(n, (c[0], c[1].encode("latin-1") if c[0] == "raw"
-                                                                    and isinstance(c[1], str) else c[1]) + tuple(c[2:]))
-                                                               for n, c in o[2]]) for o in ops]
+            ops = [o if o[0] != "foreign" else (o[0], o[1], list(o[2])) for o in unjson(payload["ops"])]
             objects = make_objects()
             obs = run_history(ops, objects, os.path.join(ROOT, "replay", "cache"), suds.__version__)
             for o, (r, pres) in zip(ops, obs):
@@ -1541,7 +1615,10 @@ def replay(ck, payload):
             docs, ops, tns_types = family_member(shape, nops, style)
             member = (docs, ops, style, tns_types)
             sc = [tuple(o) for o in payload["scenario"]]
-            observed = run_scenario(member, sc, os.path.join(ROOT, "replay", "cache"), {})
+            import tempfile
+            tempfile.tempdir = ROOT
+            observed = run_scenario(member, sc, None if any(o[1] == "default" for o in sc if o[0] == "client")
+                                    else os.path.join(ROOT, "replay", "cache"), {})
             for o, (obs, lst) in zip(sc, observed):
                 print("  %s" % (o,))
                 if obs is not None:
